@@ -962,6 +962,9 @@ def _simplify_alias(node, name, kind, place):
     return {k: (_simplify_alias(v, name, kind, place) if isinstance(v, (dict, list)) else v) for k, v in node.items()}
 
 
+NORM_COUNT = [0]
+
+
 def normalize_stmts(stmts, light=False):
     """behaviour-preserving normal form of a statement list (applied to pattern and subject by match_stmts): unsafe blocks in statement position
     are spliced; a local that only names a place (`let m = &mut P;`, `let m = addr_of_mut!(P);`) is replaced by the place; a side-effect-free local used
@@ -990,6 +993,7 @@ def normalize_stmts(stmts, light=False):
                 other_use = any(_ident(n) == name for r in new_rest for n in walk(r))
                 if not reassigned and not other_use:
                     st = st[:i] + new_rest
+                    NORM_COUNT[0] += 1
                     continue
             if _const_pure(s_["init"]) and not rebound and not any(n.get("t") == "Assign" and _ident(n["left"]) == name for r in rest for n in walk(r)):
                 # no memory is read: the value is the same wherever it is computed
@@ -998,6 +1002,7 @@ def normalize_stmts(stmts, light=False):
                     any(n.get("t") == "Binary" and n["op"].endswith("=") and n["op"] not in ("==", "!=", "<=", ">=") and _ident(n["left"]) in roots for r in rest for n in walk(r))
                 if not reassigned:
                     st = st[:i] + _subst(rest, {name: {"t": "Paren", "sp": s_["init"]["sp"], "expr": s_["init"]}})
+                    NORM_COUNT[0] += 1
                     continue
             if not light and _loadish(s_["init"]) and rest and not rebound:
                 uses_next = _count_uses(rest[0], name)
